@@ -20,6 +20,10 @@ pub struct Case {
     pub declared: u8,
     /// forced first element: (tag, VR code spelled by the low 16 bits of its length, multiples of 64 KiB added)
     pub forced: Option<((u16, u16), String, u8)>,
+    /// a later (never first) top-level element whose length spells a VR code, compatible with its dictionary entry or not:
+    /// the stated ambiguity rule concerns the first element only, every later one must be read by the detected decoder
+    #[serde(default)]
+    pub later: Option<((u16, u16), String, u8)>,
     pub all_undefined: bool,
 }
 
@@ -56,6 +60,36 @@ fn check(c: &Case, obs: &mut Obs) {
     let enc = if c.explicit { Ts::ExplicitLE } else { Ts::ImplicitLE };
     let mut ir = canonical(&c.ds);
     let mut spelled: Option<String> = None;
+    let mut later_spelled: Option<String> = None;
+    if let Some((tag, vr_code, k)) = &c.later {
+        let lo = u16::from_le_bytes([vr_code.as_bytes()[0], vr_code.as_bytes()[1]]) as usize;
+        let vr_on_wire = match dict().lookup(*tag) {
+            Lookup::None if c.explicit => "OB".to_string(),
+            _ => dict().implicit_vr(*tag).to_string(),
+        };
+        let k = if ds::is_short_vr(&vr_on_wire) && c.explicit { 0 } else { *k as usize };
+        let len = lo + k * 65536;
+        let v = match vr_on_wire.as_str() {
+            "US" => Val::U16(vec![0x4142; len / 2]),
+            "OW" => Val::U16(vec![0x0102; len / 2]),
+            "OB" | "UN" => Val::U8(vec![0x41; len]),
+            "UL" => Val::U32(vec![7; len / 4]),
+            "FD" => Val::F64(vec![1.5f64.to_bits(); len / 8]),
+            "FL" => Val::F32(vec![1.5f32.to_bits(); len / 4]),
+            "LT" | "UT" | "ST" => Val::Str("A".repeat(len)),
+            _ => Val::Strs(vec!["A".repeat(len)]),
+        };
+        if ds::encode_value(&vr_on_wire, &v, false).len() == len {
+            ir.retain(|e| e.tag() != *tag);
+            let pos = ir.iter().position(|e| e.tag() > *tag).unwrap_or(ir.len());
+            ir.insert(pos, Elem { g: tag.0, e: tag.1, vr: vr_on_wire, v });
+            if pos == 0 {
+                // keep it from being the first element: an ordinary Image Type element in front
+                ir.insert(0, Elem { g: 0x0008, e: 0x0008, vr: "CS".into(), v: Val::Strs(vec!["ORIGINAL".into()]) });
+            }
+            later_spelled = Some(vr_code.clone());
+        }
+    }
     if let Some((tag, vr_code, k)) = &c.forced {
         let lo = u16::from_le_bytes([vr_code.as_bytes()[0], vr_code.as_bytes()[1]]) as usize;
         let len = lo + (*k as usize) * 65536;
@@ -127,7 +161,10 @@ fn check(c: &Case, obs: &mut Obs) {
             }
         }
     }
-    obs.nontrivial = first_len_spells.is_some();
+    obs.nontrivial = first_len_spells.is_some() || later_spelled.is_some();
+    if let Some(s) = &later_spelled {
+        obs.class(format!("later-element-spells:{s}"));
+    }
     obs.class(if c.explicit { "encoded:explicit-le" } else { "encoded:implicit-le" });
     obs.class(format!("declared:{}", c.declared));
     if let Some(s) = &spelled {
@@ -173,7 +210,7 @@ fn check(c: &Case, obs: &mut Obs) {
 pub fn run(ctx: &Ctx) {
     ctx.run_prop(
         "flexible_vs_plain",
-        "G-DS data sets encoded by the reference encoder in Explicit LE and Implicit LE; in ~35% of cases a first element is forced whose value length has low 16 bits spelling one of the even VR codes (DA DS DT FL FD LO LT PN TM, optionally + k*64KiB) on a tag with an incompatible, compatible or no dictionary entry; flexible reader (declared Explicit LE or Implicit LE) token stream must equal the plain explicit resp. implicit reader's; cases ambiguous by the stated rule are skipped and counted; non-trivial = implicit input whose first length spells a VR and is unambiguous",
+        "G-DS data sets encoded by the reference encoder in Explicit LE and Implicit LE; in ~35% of cases a first element is forced whose value length has low 16 bits spelling one of the even VR codes (DA DS DT FL FD LO LT PN TM, optionally + k*64KiB) on a tag with an incompatible, compatible or no dictionary entry, and in ~30% a later top-level element (never the first) gets such a length on a tag whose dictionary VR may equal the spelled code; flexible reader (declared Explicit LE or Implicit LE) token stream must equal the plain explicit resp. implicit reader's; cases ambiguous by the stated rule are skipped and counted; non-trivial = implicit input whose first length spells a VR and is unambiguous, or a later element whose length spells a VR",
         || {
             let forced_tag = prop_oneof![
                 // standard tags of various dictionary VRs
@@ -196,18 +233,37 @@ pub fn run(ctx: &Ctx) {
                 Just((0x0008, 0x0000)),       // group length UL
                 Just((0x7FE0, 0x0010)),       // pixel data Px
             ];
+            // tags (all above (0008,0008)) for a later element whose length spells a VR
+            let later_tag = prop_oneof![
+                Just((0x0008u16, 0x0020u16)), // DA
+                Just((0x0008, 0x0030)),       // TM
+                Just((0x0008, 0x0070)),       // LO
+                Just((0x0008, 0x0090)),       // PN
+                Just((0x0008, 0x4000)),       // LT
+                Just((0x0010, 0x0010)),       // PN
+                Just((0x0018, 0x0050)),       // DS
+                Just((0x0008, 0x002A)),       // DT
+                Just((0x0018, 0x9089)),       // FD
+                Just((0x0018, 0x605A)),       // FL
+                Just((0x0028, 0x0010)),       // US
+                Just((0x0009, 0x0010)),       // private creator (LO)
+                Just((0x0009, 0x1001)),       // private, unknown
+                Just((0x7FE0, 0x0010)),       // pixel data
+            ];
             (
                 gen::dataset(DsCfg { max_depth: 2, max_top: 5, pixel_seq: false }),
                 any::<bool>(),
                 0u8..2,
                 proptest::option::weighted(0.35, (forced_tag, 0..SPELL.len(), prop_oneof![4 => Just(0u8), 1 => 1u8..3])),
+                proptest::option::weighted(0.3, (later_tag, 0..SPELL.len(), prop_oneof![4 => Just(0u8), 1 => 1u8..3])),
                 any::<bool>(),
             )
-                .prop_map(|(ds, explicit, declared, forced, all_undefined)| Case {
+                .prop_map(|(ds, explicit, declared, forced, later, all_undefined)| Case {
                     ds,
                     explicit,
                     declared,
                     forced: forced.map(|(t, i, k)| (t, SPELL[i].to_string(), k)),
+                    later: later.map(|(t, i, k)| (t, SPELL[i].to_string(), k)),
                     all_undefined,
                 })
                 .boxed()
